@@ -44,12 +44,14 @@ structure Quirks where
   nsBool : Bool := false
   /-- F61: `floor` of NaN / ±Infinity evaluates to the context node-set -/
   floorNonFinite : Bool := false
+  /-- F64: two-argument `substring` with start −Infinity returns the empty string -/
+  substrNegInf : Bool := false
 deriving Inhabited, Repr
 
 def Quirks.ofMask (m : Nat) : Quirks :=
   { numFmt := m.testBit 0, strtold := m.testBit 1, truncFloor := m.testBit 2, bytes := m.testBit 3,
     predMerged := m.testBit 4, follPrec := m.testBit 5, nodeTests := m.testBit 6, predTrunc := m.testBit 7,
-    textQuirk := m.testBit 8, strContainer := m.testBit 9, nsBool := m.testBit 10, floorNonFinite := m.testBit 11 }
+    textQuirk := m.testBit 8, strContainer := m.testBit 9, nsBool := m.testBit 10, floorNonFinite := m.testBit 11, substrNegInf := m.testBit 12 }
 
 inductive Value (N : Type)
   | ns (l : List Ref)
@@ -233,6 +235,7 @@ def nameOf (env : Env) (full : Bool) (l : List Ref) : Bytes :=
 def substring (env : Env) (s : Bytes) (a : N) (b : Option N) : Bytes :=
   let rnd : N → N := fun x => if env.q.truncFloor then XNum.roundC x else XNum.round x
   let ra := rnd a
+  if env.q.substrNegInf && b.isNone && !XNum.isFinite ra && XNum.lt ra (XNum.zero : N) then [] else
   let keep : Nat → Bool := fun p =>
     XNum.le ra (XNum.ofNat p : N) &&
       (match b with
